@@ -40,6 +40,9 @@ def check_scenario(ctx, chain, start, exp, stats, origin="s2c"):
     plain = all(e["k"] == "var" for e in chain)
     types = [vl.top_type(e) for e in chain]
     typed = plain and all(types) and len(set(types)) == n
+    collides = bool(set(_prev_types(startc)) & set(t for e in chain for t in vl.all_types(e)))
+    if collides:
+        sk += "+same-type"
     tag = sk if plain else "nested"
     detail = {"n": n, "start_kind": sk, "chain": [vl.sig(e) for e in chain], "start": {"d": vl.dec_data(start["d"]), "c": startc}}
     for bare in ((False, True) if not startc else (False,)):
@@ -100,6 +103,10 @@ def check_scenario(ctx, chain, start, exp, stats, origin="s2c"):
                 prev = _prev_types(startc)
                 kept = [t for t in prev if t not in types]
                 req = dict((key, v) for key, v in ev.items() if key not in kept)
+                if collides:
+                    # a pre-existing type equals a chain member's type: the statement does not fix
+                    # the compose list then (only Compose == Sequence, checked above)
+                    req.pop("compose", None)
                 if not vl.contains(var, req):
                     miss = sorted(key for key in req if key not in var or var[key] != req[key])
                     what = "compose" if miss == ["compose"] else ("type-lost" if any(m in types for m in miss) else "attrs")
@@ -201,7 +208,9 @@ def random_scenario(rnd):
         c = {"variable": {"name": "old", "unit": "u"}, "other": rnd.choice(WORDS)}
     else:
         import lena.variables
-        old = lena.variables.Variable(names[n], lambda x: x, type=types[n], **dict(
+        # sometimes the pre-existing variable has the type of a chain member (first/middle/last)
+        otype = types[rnd.randrange(n)] if rnd.random() < 0.3 else types[n]
+        old = lena.variables.Variable(names[n], lambda x: x, type=otype, **dict(
             (k, vl.dec(v)) for k, v in random_attrs(rnd).items()))
         val = old((0, {}))
         if rnd.random() < 0.5:
